@@ -179,7 +179,10 @@ fn get_rounding_term(num: &BigInt) -> u8 {
         return 0;
     }
 
-    let digits = (num.bits() as f64 / LOG2_10) as u64;
+    // the f64 estimate may exceed floor(log10(2^bits)) by one when 2^bits lies just
+    // below a power of ten (first at 146_964_308 bits); start one power of ten lower
+    // so that n <= num always holds
+    let digits = ((num.bits() as f64 / LOG2_10) as u64).saturating_sub(1);
     let mut n = ten_to_the(digits);
 
     // loop-method
